@@ -456,3 +456,69 @@ UNITS += [
          assumptions=["std::exp / ipow<2> / LinearInterpolator are uninterpreted functions", "NonuniformGrid::find by its c18_nonuniform_find contract; UniformGrid::operator[] by c18_ug_index"],
          note="InverseRangeCalculator::operator(): every index in range, find() only called with front <= r < back; (r/r0)^2 scaling below the table, highest energy exactly at the longest range, interpolation between the knots that bracket r"),
 ]
+
+
+# ---------------------------------------------------------------------------
+# ValueGridXsBuilder::build (host): which grid point becomes the prime index
+# ---------------------------------------------------------------------------
+VGB = "src/celeritas/grid/ValueGridBuilder.cc"
+VGB_MODEL = """
+typedef struct { real_type log_emin_, log_eprime_, log_emax_; size_type xs_size; } ValueGridXsBuilder;
+typedef size_type ValueGridId;
+size_type g_k;            /* ghost: the grid point the prime energy lies on (constructor EXPECT is_on_grid_point: it exists) */
+size_type g_found;        /* ghost: what UniformGrid::find returns */
+size_type g_prime;        /* ghost: the prime index handed to the inserter */
+UniformGridData g_grid;   /* ghost: the grid from_bounds builds (contract enforced in c18_from_bounds) */
+_Bool __CPROVER_uninterpreted_soft_equal(double, double);
+/* soft_equal: a tolerance comparison (uninterpreted); what is assumed about it, from the constructor's is_on_grid_point EXPECT and the
+   log spacing: the prime energy is soft-equal to grid point g_k and to no other grid point (neighbouring points differ by far more than the tolerance) */
+static bool SOFT_EQ_grid(size_type i, real_type v) { return i == g_k; }
+static UniformGridData UGD_from_bounds(real_type lo, real_type hi, size_type n) { __CPROVER_assert(lo < hi && n >= 2, "celer_expect: UniformGridData::from_bounds front < back, size >= 2"); g_grid.size = n; g_grid.front = lo; g_grid.back = hi; return g_grid; }
+/* UniformGrid::find(log_eprime): precondition front <= v < back (c18_ug_find); returns the bin containing the value, which -- the value being a grid point up to
+   roundoff -- is g_k or, if roundoff put the value just below the point, g_k - 1 (stated in the code's own comment; assumed) */
+static size_type VGB_find(UniformGridData const* d, real_type v)
+{
+    __CPROVER_assert(v >= d->front && v < d->back, "UG_find.precondition: value >= front && value < back");
+    __CPROVER_assume(g_found < d->size - 1 && (g_found == g_k || g_found + 1 == g_k));
+    return g_found;
+}
+static size_type GRID_point(UniformGridData const* d, size_type i) { __CPROVER_assert(i < d->size, "UG_index.precondition: UniformGrid::operator[] i < size"); return i; }
+static ValueGridId INSERT_call(UniformGridData d, size_type prime_index, size_type n) { __CPROVER_assert(prime_index < n, "ValueGridInserter precondition: prime_index < xs.size()"); g_prime = prime_index; return 0; }
+"""
+VGB_RULES = [
+    Rule(r"auto log_energy\s*=\s*UniformGridData::from_bounds\(log_emin_, log_emax_, xs_\.size\(\)\);", "UniformGridData log_energy = UGD_from_bounds(self->log_emin_, self->log_emax_, self->xs_size);", 1, note="from_bounds -> stub recording the grid (contract: c18_from_bounds)"),
+    Rule(r"UniformGrid grid\{log_energy\};", "UniformGridData const* grid = &log_energy;", 1, note="UniformGrid view"),
+    Rule(r"auto prime_index = grid\.find\(log_eprime_\);", "size_type prime_index = VGB_find(grid, self->log_eprime_);", 1, note="UniformGrid::find -> stub (c18_ug_find contract + the roundoff statement of the code's comment)"),
+    Rule(r"soft_equal<real_type>\(grid\[([^\[\]]*)\], log_eprime_\)", r"SOFT_EQ_grid(GRID_point(grid, \1), self->log_eprime_)", "*", note="soft_equal(grid[i], log_eprime) -> predicate on the grid point index (assumed: true exactly for the prime grid point)"),
+    Rule(r"xs_\.size\(\)", "self->xs_size", "*", note="vector size"),
+    Rule(r"return insert\(\s*UniformGridData::from_bounds\(log_emin_, log_emax_, self->xs_size\),\s*prime_index,\s*make_span\(xs_\)\);", "return INSERT_call(UGD_from_bounds(self->log_emin_, self->log_emax_, self->xs_size), prime_index, self->xs_size);", 1, note="inserter call -> stub recording the prime index"),
+]
+
+
+def build_vgb_prime(ctx):
+    pc = ctx.func(VGB, r"^auto ValueGridXsBuilder::build\(ValueGridInserter insert\) const -> ValueGridId", VGB_RULES, name="ValueGridXsBuilder::build (host)")
+    return (HDR + CALC_MODEL + VGB_MODEL + """
+ValueGridId VGB_build(ValueGridXsBuilder const* self)
+/* constructor EXPECTs: emin > 0, eprime >= emin, emax > eprime, at least two points, eprime on grid point g_k */
+__CPROVER_requires(self != 0 && self->xs_size >= 2 && self->xs_size <= 100000 && self->log_emin_ <= self->log_eprime_ && self->log_eprime_ < self->log_emax_ && self->log_emin_ < self->log_emax_)
+__CPROVER_requires(g_k < self->xs_size - 1)          /* the prime point is not the last one (emax > eprime) */
+__CPROVER_assigns(g_grid, g_prime)
+/* the table is scaled from exactly the grid point the prime energy lies on -- also when roundoff made find() return the bin below, and also when that point is the first or second one */
+__CPROVER_ensures(g_prime == g_k)
+{""" + pc.body + """}
+void h_vgb(void)
+{
+    ValueGridXsBuilder b;
+    VGB_build(&b);
+    VERIF_CANARY();
+}
+""")
+
+
+UNITS += [
+    Unit("c14_xs_builder_prime", build_vgb_prime, "h_vgb", enforce="VGB_build", timeout=300, backend=["sat", "cvc5"],
+         must_have=[r"VGB_build.postcondition", r"celer_assert", r"UG_find.precondition", r"UG_index.precondition"], checks=["--bounds-check", "--pointer-check"],
+         assumptions=["soft_equal(grid[i], log_eprime) holds exactly for the grid point the prime energy lies on (constructor EXPECT is_on_grid_point + log spacing; tolerance comparison uninterpreted)",
+                      "UniformGrid::find returns that point's bin or the one below (roundoff; the code's own comment)", "ValueGridInserter and the std::vector handling are not under contract"],
+         note="ValueGridXsBuilder::build (host code, whole function): the prime index handed to the inserter is the grid point of the prime energy for every position of that point incl. the first two; both in-body CELER_ASSERTs hold; find/operator[] preconditions hold"),
+]
